@@ -220,10 +220,42 @@ impl Property for C03 {
     const ID: &'static str = "C03";
 
     fn families(_tier: Tier) -> u32 {
-        13
+        14
     }
 
     fn strategy(tier: Tier, family: u32) -> BoxedStrategy<Case> {
+        if family == 13 {
+            // more than 127 blocks in both directions (multi-byte record count in the index)
+            return (
+                (520_000u32..700_000, any::<u64>(), 1u16..400, any::<bool>()),
+                prop_oneof![
+                    xz_cfg_strategy(4096).prop_map(|mut c| {
+                        c.filters.clear();
+                        c.opts.dict_size = 4096;
+                        c.opts.mode = 0;
+                        c.block = Some(4096);
+                        Dir::OursXz(c)
+                    }),
+                    (ref_lzma_strategy(4096), 0u8..4, 1u32..4).prop_map(|(mut lzma, check, threads)| {
+                        lzma.dict_size = 4096;
+                        lzma.mode = 1;
+                        lzma.mf = 3;
+                        lzma.nice_len = lzma.nice_len.max(3);
+                        Dir::RefMt { filters: vec![], lzma, check, block: 4096, threads }
+                    }),
+                ],
+                read_sizes_strategy(),
+            )
+                .prop_map(|((len, seed, period, text), dir, sizes)| Case {
+                    data: Data {
+                        segs: vec![if text { Seg::Text { len, seed } } else { Seg::Periodic { len, period, seed } }],
+                    },
+                    dir,
+                    plan: Plan::Fixed(4096),
+                    sizes,
+                })
+                .boxed();
+        }
         (data_for(tier), dir_strategy(tier, family), plan_strategy(), read_sizes_strategy())
             .prop_map(|(data, dir, plan, sizes)| {
                 let plan = match &dir {
@@ -253,6 +285,7 @@ impl Property for C03 {
             ("ours_to_ref", 35.0),
             ("ref_to_ours", 35.0),
             ("ref_multi_block", 3.0),
+            ("blocks_128_plus", 1.0),
             ("ref_size_fields", 3.0),
             ("filters", 10.0),
         ]
@@ -336,6 +369,7 @@ impl Property for C03 {
                     return Err(Failure::new("harness:walker-vs-ref", format!("walker rejects a liblzma file: {:?}", w.error)));
                 }
                 obs.class_if(w.streams[0].blocks.len() >= 2, "ref_multi_block");
+                obs.class_if(w.streams[0].blocks.len() >= 128, "blocks_128_plus");
                 ours_xz(&s, &data, &case.sizes, cap)
             }
             Dir::RefMt { filters, lzma, check, block, threads } => {
@@ -358,6 +392,7 @@ impl Property for C03 {
                 }
                 let bl = &w.streams[0].blocks;
                 obs.class_if(bl.len() >= 2, "ref_multi_block");
+                obs.class_if(bl.len() >= 128, "blocks_128_plus");
                 obs.class_if(bl.iter().any(|b| b.compressed_size_field.is_some() && b.uncompressed_size_field.is_some()), "ref_size_fields");
                 ours_xz(&s, &data, &case.sizes, cap)
             }
